@@ -53,10 +53,17 @@ pub struct CmdSpec {
 }
 
 #[derive(Clone, Debug)]
+pub struct EventSpec {
+    pub id: u32,
+    pub access: Access,
+}
+
+#[derive(Clone, Debug, Default)]
 pub struct ClusterSpec {
     pub id: u32,
     pub attrs: Vec<AttrSpec>,
     pub cmds: Vec<CmdSpec>,
+    pub events: Vec<EventSpec>,
 }
 
 #[derive(Clone, Debug)]
@@ -118,17 +125,18 @@ impl TestDm {
     fn with_cluster<R>(&self, ep: u16, cl: u32, f: impl FnOnce(&Cluster<'_>) -> R) -> Option<R> {
         let spec = self.spec.borrow();
         let c = spec.endpoints.iter().find(|e| e.id == ep)?.clusters.iter().find(|c| c.id == cl)?;
-        let (attrs, cmds) = cluster_meta(c);
-        let cluster = Cluster::new(c.id, 1, 0, &attrs, &cmds, &[], always_attr, always_cmd, always_event);
+        let (attrs, cmds, events) = cluster_meta(c);
+        let cluster = Cluster::new(c.id, 1, 0, &attrs, &cmds, &events, always_attr, always_cmd, always_event);
         Some(f(&cluster))
     }
 }
 
-fn cluster_meta(c: &ClusterSpec) -> (Vec<Attribute>, Vec<Command>) {
+fn cluster_meta(c: &ClusterSpec) -> (Vec<Attribute>, Vec<Command>, Vec<rs_matter::dm::Event>) {
     let mut attrs: Vec<Attribute> = c.attrs.iter().map(|a| Attribute::new(a.id, a.access, a.quality)).collect();
     attrs.extend_from_slice(&[rs_matter::dm::GENERATED_COMMAND_LIST, rs_matter::dm::ACCEPTED_COMMAND_LIST, rs_matter::dm::EVENT_LIST, rs_matter::dm::ATTRIBUTE_LIST, rs_matter::dm::FEATURE_MAP, rs_matter::dm::CLUSTER_REVISION]);
     let cmds: Vec<Command> = c.cmds.iter().map(|x| Command::new(x.id, x.resp, x.access)).collect();
-    (attrs, cmds)
+    let events: Vec<rs_matter::dm::Event> = c.events.iter().map(|x| rs_matter::dm::Event::new(x.id, x.access)).collect();
+    (attrs, cmds, events)
 }
 
 impl Metadata for TestDm {
@@ -138,13 +146,13 @@ impl Metadata for TestDm {
     {
         let spec = self.spec.borrow();
         // build the metadata tree for the current composition
-        let metas: Vec<Vec<(Vec<Attribute>, Vec<Command>)>> = spec.endpoints.iter().map(|e| e.clusters.iter().map(cluster_meta).collect()).collect();
+        let metas: Vec<Vec<(Vec<Attribute>, Vec<Command>, Vec<rs_matter::dm::Event>)>> = spec.endpoints.iter().map(|e| e.clusters.iter().map(cluster_meta).collect()).collect();
         let dts: Vec<[DeviceType; 1]> = spec.endpoints.iter().map(|e| [DeviceType { dtype: e.device_type, drev: 1 }]).collect();
         let clusters: Vec<Vec<Cluster<'_>>> = spec
             .endpoints
             .iter()
             .zip(metas.iter())
-            .map(|(e, m)| e.clusters.iter().zip(m.iter()).map(|(c, (a, k))| Cluster::new(c.id, 1, 0, a, k, &[], always_attr, always_cmd, always_event)).collect())
+            .map(|(e, m)| e.clusters.iter().zip(m.iter()).map(|(c, (a, k, ev))| Cluster::new(c.id, 1, 0, a, k, ev, always_attr, always_cmd, always_event)).collect())
             .collect();
         let endpoints: Vec<Endpoint<'_>> = spec.endpoints.iter().zip(clusters.iter()).zip(dts.iter()).map(|((e, c), d)| Endpoint::new(e.id, d, c)).collect();
         let node = Node::new(&endpoints);
@@ -349,6 +357,79 @@ pub fn read_request(paths: &[Path], fabric_filtered: bool, dataver_filters: &[(u
     tw.as_slice().to_vec()
 }
 
+fn write_event_path(tw: &mut WriteBuf<'_>, p: &Path) -> Result<(), Error> {
+    tw.start_list(&TLVTag::Anonymous)?;
+    if let Some(e) = p.ep {
+        tw.u16(&TLVTag::Context(1), e)?;
+    }
+    if let Some(c) = p.cl {
+        tw.u32(&TLVTag::Context(2), c)?;
+    }
+    if let Some(a) = p.leaf {
+        tw.u32(&TLVTag::Context(3), a)?;
+    }
+    tw.end_container()
+}
+
+fn write_event_part(tw: &mut WriteBuf<'_>, paths_tag: u8, filters_tag: u8, event_paths: &[Path], event_min: Option<u64>) -> Result<(), Error> {
+    if !event_paths.is_empty() {
+        tw.start_array(&TLVTag::Context(paths_tag))?;
+        for p in event_paths {
+            write_event_path(tw, p)?;
+        }
+        tw.end_container()?;
+    }
+    if let Some(m) = event_min {
+        tw.start_array(&TLVTag::Context(filters_tag))?;
+        tw.start_struct(&TLVTag::Anonymous)?;
+        tw.u64(&TLVTag::Context(1), m)?;
+        tw.end_container()?;
+        tw.end_container()?;
+    }
+    Ok(())
+}
+
+/// ReadRequest with attribute and event paths and an optional minimum event number.
+pub fn read_request_ev(attr_paths: &[Path], event_paths: &[Path], event_min: Option<u64>, fabric_filtered: bool) -> Vec<u8> {
+    let mut buf = vec![0u8; 2048];
+    let mut tw = WriteBuf::new(&mut buf);
+    tw.start_struct(&TLVTag::Anonymous).unwrap();
+    if !attr_paths.is_empty() {
+        tw.start_array(&TLVTag::Context(0)).unwrap();
+        for p in attr_paths {
+            write_attr_path(&mut tw, &TLVTag::Anonymous, p, None).unwrap();
+        }
+        tw.end_container().unwrap();
+    }
+    write_event_part(&mut tw, 1, 2, event_paths, event_min).unwrap();
+    tw.bool(&TLVTag::Context(3), fabric_filtered).unwrap();
+    tw.u8(&TLVTag::Context(0xFF), 12).unwrap();
+    tw.end_container().unwrap();
+    tw.as_slice().to_vec()
+}
+
+/// SubscribeRequest with attribute and event paths.
+pub fn subscribe_request_ev(min_s: u16, max_s: u16, attr_paths: &[Path], event_paths: &[Path], event_min: Option<u64>, fabric_filtered: bool) -> Vec<u8> {
+    let mut buf = vec![0u8; 2048];
+    let mut tw = WriteBuf::new(&mut buf);
+    tw.start_struct(&TLVTag::Anonymous).unwrap();
+    tw.bool(&TLVTag::Context(0), false).unwrap();
+    tw.u16(&TLVTag::Context(1), min_s).unwrap();
+    tw.u16(&TLVTag::Context(2), max_s).unwrap();
+    if !attr_paths.is_empty() {
+        tw.start_array(&TLVTag::Context(3)).unwrap();
+        for p in attr_paths {
+            write_attr_path(&mut tw, &TLVTag::Anonymous, p, None).unwrap();
+        }
+        tw.end_container().unwrap();
+    }
+    write_event_part(&mut tw, 4, 5, event_paths, event_min).unwrap();
+    tw.bool(&TLVTag::Context(7), fabric_filtered).unwrap();
+    tw.u8(&TLVTag::Context(0xFF), 12).unwrap();
+    tw.end_container().unwrap();
+    tw.as_slice().to_vec()
+}
+
 /// (path, optional data version condition, value TLV written with the given writer)
 pub fn write_request(items: &[(Path, Option<u32>, u32)], timed: bool) -> Vec<u8> {
     let mut buf = vec![0u8; 2048];
@@ -436,6 +517,10 @@ pub enum Item {
     Status { ep: Option<u16>, cl: Option<u32>, leaf: Option<u32>, status: u16 },
     /// command response data
     CmdData { ep: u16, cl: u32, cmd: u32, value: Vec<u8> },
+    /// event data; the payload fields of the harness's events: serial (tag 0), filler (tag 1), fabric index (tag 254)
+    Event { ep: u16, cl: u32, ev: u32, number: u64, priority: u8, serial: Option<u32>, filler: Option<Vec<u8>>, fab: Option<u8> },
+    /// event status
+    EventStatus { ep: Option<u16>, cl: Option<u32>, ev: Option<u32>, status: u16 },
 }
 
 fn path_of(e: &TLVElement, ep_tag: u8, cl_tag: u8, leaf_tag: u8) -> (Option<u16>, Option<u32>, Option<u32>, Option<Option<u16>>) {
@@ -503,7 +588,31 @@ pub fn decode_report(payload: &[u8]) -> Result<(Vec<Item>, bool, bool, Option<u3
                     }
                 }
             }
-            Some(2) => {}
+            Some(2) => {
+                for ib in f.array().map_err(|e| format!("event reports: {:?}", e.code()))?.iter() {
+                    let ib = ib.map_err(|e| format!("event report: {:?}", e.code()))?;
+                    let st = ib.structure().map_err(|e| format!("event report ib: {:?}", e.code()))?;
+                    if let Some(status_ib) = find(&st, 0) {
+                        let sst = status_ib.structure().map_err(|e| format!("{:?}", e.code()))?;
+                        let (ep, cl, ev, _) = path_of(&sst.find_ctx(0).map_err(|e| format!("event status path: {:?}", e.code()))?, 1, 2, 3);
+                        let status = status_of(&sst.find_ctx(1).map_err(|e| format!("event status ib: {:?}", e.code()))?);
+                        items.push(Item::EventStatus { ep, cl, ev, status });
+                    } else if let Some(data_ib) = find(&st, 1) {
+                        let dst = data_ib.structure().map_err(|e| format!("{:?}", e.code()))?;
+                        let (ep, cl, ev, _) = path_of(&dst.find_ctx(0).map_err(|e| format!("event path: {:?}", e.code()))?, 1, 2, 3);
+                        let number = find(&dst, 1).and_then(|x| x.u64().ok()).ok_or("event without number")?;
+                        let priority = find(&dst, 2).and_then(|x| x.u8().ok()).ok_or("event without priority")?;
+                        let data = find(&dst, 7).ok_or("event without data")?;
+                        let ds = data.structure().map_err(|e| format!("event data: {:?}", e.code()))?;
+                        let serial = find(&ds, 0).and_then(|x| x.u32().ok());
+                        let filler = find(&ds, 1).and_then(|x| x.str().ok().map(|b| b.to_vec()));
+                        let fab = find(&ds, 0xFE).and_then(|x| x.u8().ok());
+                        items.push(Item::Event { ep: ep.ok_or("event without endpoint")?, cl: cl.ok_or("event without cluster")?, ev: ev.ok_or("event without id")?, number, priority, serial, filler, fab });
+                    } else {
+                        return Err("event report with neither status nor data".into());
+                    }
+                }
+            }
             Some(3) => more = f.bool().unwrap_or(false),
             Some(4) => suppress = f.bool().unwrap_or(false),
             _ => {}
